@@ -363,4 +363,61 @@ def decodeHistFrom (E : Env α β) (sub : Bool) (ts : List Ty) :
 def decodeHist (E : Env α β) (sub : Bool) (ts : List Ty) (streams : List (List UInt8)) :=
   decodeHistFrom E sub ts ([], none, 0) streams
 
+/-! ## `Encoder` on a writer that fails
+
+The writer (`io.Writer` handed to `NewEncoder`) holds a list of byte budgets: it accepts bytes until the head budget
+is used up; the `Write` that asks for more gets the bytes that still fit, an error, and the writer goes on with the
+next budget (a transient failure). With no budget left every non-empty `Write` fails with nothing accepted.
+`[k]` is the writer that accepts exactly `k` bytes and then fails for ever. -/
+
+abbrev Budgets := List Nat
+
+/-- one `Write(p)`: bytes accepted, error reported, next state of the writer -/
+def wWrite : Budgets → List UInt8 → List UInt8 × Bool × Budgets
+  | [], p => ([], !p.isEmpty, [])
+  | b :: bs, p => if p.length ≤ b then (p, false, (b - p.length) :: bs) else (p.take b, true, bs)
+
+/-- successive `Write` calls of one `Encode`, which stops at the first `Write` that reports an error -/
+def wChunks : Budgets → List (List UInt8) → List UInt8 × Bool × Budgets
+  | w, [] => ([], false, w)
+  | w, p :: ps =>
+    match wWrite w p with
+    | (o, true, w') => (o, true, w')
+    | (o, false, w') =>
+      let r := wChunks w' ps
+      (o ++ r.1, r.2.1, r.2.2)
+
+/-- the `Write` calls of a length-prefixed sequence: the `uint32` prefix, then those of the items -/
+def chunksPrefixed {τ : Type} (item : τ → List (List UInt8)) (l : List τ) : List (List UInt8) :=
+  putBE 4 l.length :: (l.map item).flatten
+
+/-- the `Write` calls `Encoder.Encode` makes for a value (one per integer, element, point, length prefix) -/
+def encodeChunks (E : Env α β) (raw : Bool) : Val α β → List (List UInt8)
+  | .u k v => [putBE k v]
+  | .fr v => [putBE E.frB v]
+  | .fp v => [putBE E.fpB v]
+  | .g1 P => [encPt E.C1 raw P]
+  | .g2 P => [encPt E.C2 raw P]
+  | .g1s l => chunksPrefixed (fun P => [encPt E.C1 raw P]) l
+  | .g2s l => chunksPrefixed (fun P => [encPt E.C2 raw P]) l
+  | .frs l => chunksPrefixed (fun x => [putBE E.frB x]) l
+  | .fps l => chunksPrefixed (fun x => [putBE E.fpB x]) l
+  | .frss l => chunksPrefixed (chunksPrefixed (fun x => [putBE E.frB x])) l
+  | .frsss l => chunksPrefixed (chunksPrefixed (chunksPrefixed (fun x => [putBE E.frB x]))) l
+  | .u64s l => chunksPrefixed (fun x => [putBE 8 x]) l
+  | .u64ss l => chunksPrefixed (chunksPrefixed (fun x => [putBE 8 x])) l
+
+/-- `Encode(v)` on the writer `w`: the bytes the writer accepted during the call (`BytesWritten` advances by their
+number), whether `Encode` returns an error, the writer afterwards -/
+def encodeTo (E : Env α β) (raw : Bool) (w : Budgets) (v : Val α β) : List UInt8 × Bool × Budgets :=
+  wChunks w (encodeChunks E raw v)
+
+/-- successive `Encode` calls on ONE `Encoder` (the calls go on after a failed one): per call the bytes accepted and
+the error flag -/
+def encodeSeqTo (E : Env α β) (raw : Bool) : Budgets → List (Val α β) → List (List UInt8 × Bool)
+  | _, [] => []
+  | w, v :: vs =>
+    let r := encodeTo E raw w v
+    (r.1, r.2.1) :: encodeSeqTo E raw r.2.2 vs
+
 end GV.PointCodec
